@@ -221,7 +221,12 @@ def check(rep, an, tier):
             label = f"internal={internal}"
             res = an.run(f"{EST}.{name}", kws=kw, self_fields=dict(fields), config=label)
             entry = f"ReceptorEstimator.{name}"
-            written = {ev.d["attr"] for ev in res.events("self_store")}
+            all_written = {ev.d["attr"] for ev in res.events("self_store")}
+            caches = {a_ for a_ in all_written if a_.startswith("_") and a_ not in fields}
+            written = all_written - caches
+            if caches:
+                # private cache attributes are judged by the cache rule (stale after some registration → violated)
+                R.rule_effect_free(rep, res, entry, allowed=tuple(written), reg=registration_writes(an), what=f"`{name}` [{label}]")
             if internal:
                 rep.check("R-EFFECT", f"{name}() stores its results", written == want, where=res.fn.loc(),
                           construct=f"write set of {name} [{label}]", entry=entry, config=label, msg=f"writes {sorted(written)}, declared {sorted(want)}")
